@@ -2,6 +2,7 @@ SPECIFICATION Spec
 CONSTANTS
   Backend = "badger"
   MetaAlways = FALSE
+  PointMeta = TRUE
   Gs = {1,2}
   IdSet = {1, 2}
   Vals = {1, 2}
